@@ -420,6 +420,7 @@ func visitInstr(fr *frame, instr ssa.Instruction) continuation {
 			panic("assignment to entry in nil map")
 		}
 		fr.i.x.specMapWrite(m)
+		fr.i.x.frozenMapWrite(m)
 		m.insert(fr.i.x, fr.get(instr.Key), fr.get(instr.Value))
 
 	case *ssa.TypeAssert:
